@@ -145,6 +145,7 @@ def gen_program(rng, family="core", nfn=None):
     durs = {
         "core": [0, 0, 0, 1, 2],
         "dur": [0, 1, 2, 2, 3],
+        "structdur": [0, 1, 2, 2, 2],
         "churn": [0],
     }.get(family, [0, 0, 1, 2])
     inputs = [[[rng.randrange(nv), rng.choice(durs)], [rng.randrange(nv), rng.choice(durs)]] for _ in range(nin)]
@@ -156,6 +157,7 @@ def gen_program(rng, family="core", nfn=None):
         "struct": ["plain", "plain", "q2"],
         "structlru": ["lru", "lru", "plain"],
         "structcoll": ["plain", "plain", "q2"],
+        "structdur": ["plain", "plain", "q2"],
         "spec": ["plain"],
         "intern": ["plain", "plain"],
         "accum": ["plain", "plain", "noeq", "q2"],
@@ -172,6 +174,7 @@ def gen_program(rng, family="core", nfn=None):
         "struct": ["in", "in", "call", "new", "new", "fld", "fld", "calls", "untr"],
         "structlru": ["in", "in", "call", "new", "new", "fld", "fld", "calls"],
         "structcoll": ["in", "in", "in", "call", "new", "new", "new", "fld", "calls"],
+        "structdur": ["in", "in", "in", "call", "new", "new", "fld", "fld", "calls"],
         "spec": ["in", "in", "call", "new", "new", "fld", "calls", "spec", "spec"],
         "intern": ["in", "in", "call", "intern", "intern", "rdint", "calli"],
         "accum": ["in", "in", "call", "call", "acc", "acc"],
@@ -274,6 +277,11 @@ def chain_body(rng, steps):
             plan.append(("in2", st))
             plan.append(("elseconst", st))
             plan.append(("condcall", st))
+        elif st[0] == "fldcond":
+            # read tracked field st[2] of the struct created by function st[1]; if it is 1, r |= st[3]
+            plan.append(("callc", st))
+            plan.append(("fldr", st))
+            plan.append(("fldconst", st))
         else:
             plan.append((st[0], st))
     plan.append(("retr", None))
@@ -295,6 +303,13 @@ def chain_body(rng, steps):
             nodes.append(node("orc", st[5], 0, 0, [idx[n + 2]]))
         elif kind == "condcall":
             nodes.append(node("orcall", st[3], st[4], 0, [nx]))
+        elif kind == "callc":
+            nodes.append(node("call", st[1], 0, 0, [nx, nx]))
+        elif kind == "fldr":
+            # field value 0 -> continue after the constant, 1 -> the constant
+            nodes.append(node("fld", 1, st[2], 0, [idx[n + 2], idx[n + 1]]))
+        elif kind == "fldconst":
+            nodes.append(node("orc", st[3], 0, 0, [nx]))
         elif kind == "retr":
             nodes.append(node("retr"))
     return nodes
@@ -406,6 +421,33 @@ def gen_fixshape_history(rng, prog, nops):
         else:
             hist.append({"op": "get", "f": rng.randrange(nfn) + 1})
     return hist
+
+
+def gen_fixstruct_program(rng):
+    """C12 x tracked structs: members of fixpoint cycles read tracked fields of a struct created by a plain
+    function from an input; the field changes across revisions while the struct keeps its identity."""
+    prog = gen_cycle_program1(rng, "fix")
+    nin = len(prog["inputs"])
+    n = len(prog["fns"])
+    creator = n + 1
+    ci, cf = rng.randrange(nin) + 1, rng.randrange(2) + 1
+    fldn = rng.choice([1, 2])
+    def mk(v):
+        return node("new", 0, v if fldn == 1 else 0, v if fldn == 2 else 0, [])
+    cn = [node("in", ci, cf, 0, [2, 4]), dict(mk(0), kids=[3]), node("ret", 0), dict(mk(1), kids=[5]), node("ret", 0)]
+    full = prog["nv"] - 1
+    for j, f in enumerate(prog["fns"], 1):
+        if f["kind"] in ("fix", "fixjoin") and rng.random() < 0.6:
+            # rebuild the body with a field read in front (steps are not kept: prepend nodes and shift indices)
+            pre = [node("call", creator, 0, 0, [2, 2]), node("fld", 1, fldn, 0, [4, 3]), node("orc", rng.randrange(1, full + 1), 0, 0, [4])]
+            body = []
+            for nd in f["nodes"]:
+                nd2 = dict(nd)
+                nd2["kids"] = [k + 3 for k in nd["kids"]]
+                body.append(nd2)
+            f["nodes"] = pre + body
+    prog["fns"].append({"kind": "plain", "init": 0, "fwd": 1, "nodes": cn})
+    return prog
 
 
 def gen_nested_fix_program(rng, ncons=0, nleaf=0):
@@ -799,17 +841,18 @@ def gen_history(rng, prog, nops, family="core"):
         w["evict"] = 1
         w["get"] = 4
         w["synth"] = 3
-    if family in ("struct", "structlru", "structcoll", "spec", "mixed", "churn"):
+    if family in ("struct", "structlru", "structcoll", "structdur", "spec", "mixed", "churn"):
         w["gets"] = 3
     if family == "churn":
         w["set"] = 8
         w["synth"] = 2
-    if family == "dur":
+    if family in ("dur", "structdur"):
         w["synth"] = 2
     ops = [k for k, v in w.items() for _ in range(v)]
     dchoices = {
         "core": [-1, -1, -1, 0, 1, 2],
         "dur": [-1, -1, 0, 1, 2, 2, 3],
+        "structdur": [-1, -1, -1, 0, 1, 2, 2],
         "churn": [-1],
     }.get(family, [-1, -1, -1, 0, 1, 2])
     focus = list(range(1, nfn + 1))
@@ -840,6 +883,56 @@ def gen_history(rng, prog, nops, family="core"):
         elif o == "gets":
             hist.append({"op": "gets", "f": rng.randrange(nfn) + 1, "m": rng.choice([1, 2, 3] if family == "spec" else [1, 2]),
                          "k": rng.choice([1, 1, 2])})
+    return hist
+
+
+def gen_structdur_program(rng):
+    """C02 x tracked structs: a creator that reads a HIGH selector and, depending on it, also a LOW input before it
+    (re-)creates a struct; readers of the struct's tracked fields (plain and struct-keyed functions) must follow the
+    struct's durability when it drops."""
+    nv = 2
+    sel_d, low_d = rng.choice([2, 2, 1]), 0
+    inputs = [[[rng.randrange(2), sel_d], [rng.randrange(2), low_d]], [[rng.randrange(2), rng.choice([0, 2])], [rng.randrange(2), 2]]]
+    x0, y0 = rng.randrange(2), rng.randrange(2)
+    fldn = rng.choice([1, 2])           # the tracked field that follows the LOW input
+    def mk(lowv):
+        x = lowv if fldn == 1 else x0
+        y = lowv if fldn == 2 else y0
+        return ("new", 0, x, y)
+    base = mk(rng.randrange(2))         # fields while only the selector is read
+    creator = [node("in", 1, 1, 0, [2, 4]) if rng.random() < 0.5 else node("in", 1, 1, 0, [4, 2]),
+               node(*base, kids=[3]), node("ret", 0),
+               node("in", 1, 2, 0, [5, 7]), node(*mk(0), kids=[6]), node("ret", 0), node(*mk(1), kids=[8]), node("ret", 0)]
+    reader = [node("call", 1, 0, 0, [2, 2]), node("fld", 1, fldn, 0, [3, 4]), node("ret", 0), node("ret", 1)]
+    reader2 = [node("call", 1, 0, 0, [2, 2]), node("calls", 1, 1, 0, [3, 4]), node("ret", 0), node("ret", 1)]
+    other = [node("in", 2, 1, 0, [2, 3]), node("call", 2, 0, 0, [4, 4]), node("ret", 1), node("ret", 0)]
+    fns = [{"kind": "plain", "init": 0, "fwd": 0, "nodes": creator},
+           {"kind": rng.choice(["plain", "plain", "noeq"]), "init": 0, "fwd": 0, "nodes": reader},
+           {"kind": "plain", "init": 0, "fwd": 0, "nodes": reader2},
+           {"kind": "plain", "init": 0, "fwd": 0, "nodes": other}]
+    sf1 = [node("fld", 1, fldn, 0, [2, 3]), node("ret", 0), node("ret", 1)]
+    sf = {"kind": "splain", "init": 0, "nodes": [node("ret", 0)]}
+    return {"nv": nv, "inputs": inputs, "cells": [], "fns": fns,
+            "sfns": [{"kind": "splain", "init": 0, "nodes": sf1}, sf, dict(sf, kind="sspec")],
+            "ifns": [{"kind": "iplain", "init": 0, "nodes": [node("ret", 0)]}], "lru_cap": 2}
+
+
+def gen_structdur_history(rng, prog, nops):
+    hist = []
+    while len(hist) < nops:
+        c = rng.random()
+        if c < 0.45:
+            hist.append({"op": "get", "f": rng.choice([2, 2, 3, 4, 1])})
+        elif c < 0.6:
+            hist.append({"op": "gets", "f": 1, "m": 1, "k": 1})
+        elif c < 0.75:
+            hist.append({"op": "set", "i": 1, "f": 1, "v": rng.randrange(2), "d": -1})      # the selector (durable)
+        elif c < 0.92:
+            hist.append({"op": "set", "i": 1, "f": 2, "v": rng.randrange(2), "d": -1})      # the LOW input
+        elif c < 0.96:
+            hist.append({"op": "set", "i": 2, "f": 1, "v": rng.randrange(2), "d": -1})
+        else:
+            hist.append({"op": "synth", "d": rng.choice([0, 1, 2])})
     return hist
 
 
@@ -903,6 +996,12 @@ def gen_jobs(seed, njobs, family, nops):
         elif family == "accchain":
             prog = gen_accchain_program(rng)
             hist = gen_accchain_history(rng, prog, nops)
+        elif family == "fixstruct":
+            prog = gen_fixstruct_program(rng)
+            hist = gen_history(rng, prog, nops, "fix")
+        elif family == "structdur":
+            prog = gen_structdur_program(rng)
+            hist = gen_structdur_history(rng, prog, nops)
         elif family == "persistshare":
             prog = gen_persistshare_program(rng)
             hist = gen_persistshare_history(rng, prog, nops)
